@@ -172,6 +172,11 @@ def run(ctx):
                 ctx.add('U3.port-in-path', 'ldapi://x:1/', loc(U.root), v == ('ctor', 'Err', (('ctor', 'LdapError::PortInUnixPath', ()),)) and not con, 'a ":" in the socket path must be PortInUnixPath')
             elif con:
                 seen.add('connect')
+                # Url::host_str() never contains the port (the url crate splits it off), so a port-bearing ldapi URL is only
+                # seen through Url::port(): the socket must not be dialled on a path that did not find the port absent
+                noport = absx.pc_variant(pcs, lambda v: v[0] == 'call' and v[1] == 'url::Url::port', 'Some')
+                ctx.add('U3.port-bearing-url-rejected', 'ldapi://path:port', loc(con[0][3]), noport is False,
+                        'the Unix socket is dialled on a path that never tested Url::port(): `ldapi://%2Fsock:389` connects instead of returning PortInUnixPath')
                 arg = strip_site(con[0][2][0])
                 ok = any(x[1].endswith('percent_decode') for x in absx.leaves(arg, lambda x: x[0] == 'call')) and absx.leaves(arg, lambda x: x == hs) != []
                 ctx.add('U3.percent-decoded-path', 'connect', loc(con[0][3]), ok, 'the socket path must be the percent-decoded host part of the URL: %s' % absx.fmt(arg)[:100])
